@@ -4,6 +4,7 @@ CONSTANTS
   Keys = {k1}
   NW = 2
   MaxDeps = 3
+  OriginalOffset = FALSE
   MaxFail = 1
   Shapes <- ShapesAll
 INVARIANTS TypeOK NoOverlap QueueOrder AtMostOnce WaitOK
